@@ -1,3 +1,4 @@
+import importlib
 from ..engine import Case
 from .c16 import CODECS, FUNCS
 
@@ -14,15 +15,38 @@ def dec_cases(tier):
     return out
 
 
+def _fams():
+    out = []
+    for name in ('aconf', 'ini'):
+        try:
+            out.append(importlib.import_module('vlib.fam.' + name))
+        except ImportError:
+            pass
+    return out
+
+
 def cases(tier):
+    from . import c16q
     out = dec_cases(tier)
+    out += c16q.c17_cases(tier)
+    for m in _fams():
+        out += m.cases(tier, 'c17')
     return out
 
 
 def meta(tier):
-    return {'level': 'model_checking',
-            'bounds': 'decoders: every input of length 0..%d, all bytes symbolic' % (6 if tier == 'quick' else 12),
-            'outside': ['inputs longer than the bound'],
-            'stubs': ['CBMC built-in malloc/free models'],
-            'assumptions': ['malloc does not fail'],
-            'explanation': 'Bounded symbolic execution with pointer/bounds checks: input lives in an exactly sized heap object; unwinding assertions prove termination within n+2 iterations.'}
+    from . import c16q
+    infos = [m.info(tier) for m in _fams()]
+    b = {'decoders (URL, Base64, hex)': 'every input of length 0..%d, all bytes symbolic, exactly sized heap buffer' % (6 if tier == 'quick' else 12)}
+    try:
+        b['query parser'] = c16q.info(tier)
+    except Exception:
+        pass
+    for i in infos:
+        b[i['container']] = i['bounds']
+    return {'level': 'model_checking', 'bounds': b,
+            'outside': ['inputs longer than / outside the stated families', 'coverage-guided mutation (another technique family)', 'Apache parser lines >= the reduced line buffer (QLIBC_VERIF_MAX_LINESIZE hook)'],
+            'stubs': sorted(set(['CBMC built-in malloc/free models'] + sum([i['stubs'] for i in infos], []))),
+            'assumptions': ['malloc does not fail'] + [i['container'] + ': ' + i['prestate'] for i in infos],
+            'explanation': 'Bounded symbolic execution with pointer/bounds checks: the input lives in an exactly sized heap object, unwinding assertions prove termination within the stated bounds (an unwinding failure is replayed natively under a watchdog). '
+                           'Decoders and query parser: all input bytes symbolic per length. Apache parser: line templates with symbolic word bytes. INI parser: see its bounds entry (driver-enumerated finite families executed by the symbolic executor).'}
